@@ -56,6 +56,12 @@ func writeOverlay(p *Program, dir string) (string, error) {
 
 // runNative runs the cases (all of one package) through the native build.
 func runNative(p *Program, pkgPath string, cases []replayCase, timeout time.Duration) ([]nativeResult, string, error) {
+	return runNativeOpt(p, pkgPath, cases, timeout, false)
+}
+
+// runNativeOpt: with race, the test binary is built with the race detector
+// and the harnesses' verifRaceStress sections run.
+func runNativeOpt(p *Program, pkgPath string, cases []replayCase, timeout time.Duration, race bool) ([]nativeResult, string, error) {
 	dir, err := os.MkdirTemp("", "gosym-replay-")
 	if err != nil {
 		return nil, "", err
@@ -71,11 +77,19 @@ func runNative(p *Program, pkgPath string, cases []replayCase, timeout time.Dura
 		return nil, "", err
 	}
 	rel := "./" + strings.TrimPrefix(strings.TrimPrefix(pkgPath, repoModule), "/")
-	cmd := exec.Command("go", "test", "-vet=off", "-count=1", "-tags", harnessTag, "-overlay", ovf,
-		"-run", "^TestVerifReplay$", "-timeout", fmt.Sprintf("%ds", int(timeout.Seconds())), "-v", rel)
+	argv := []string{"test", "-vet=off", "-count=1", "-tags", harnessTag, "-overlay", ovf,
+		"-run", "^TestVerifReplay$", "-timeout", fmt.Sprintf("%ds", int(timeout.Seconds())), "-v"}
+	if race {
+		argv = append(argv, "-race")
+	}
+	argv = append(argv, rel)
+	cmd := exec.Command("go", argv...)
 	cmd.Dir = p.repoDir
 	cmd.Env = append(os.Environ(), "GOFLAGS=-mod=mod", "GOPROXY=off", "GOSUMDB=off", "GOTOOLCHAIN=local",
 		"VERIF_REPLAY="+cf)
+	if race {
+		cmd.Env = append(cmd.Env, "VERIF_RACE=1")
+	}
 	var out bytes.Buffer
 	cmd.Stdout = &out
 	cmd.Stderr = &out
@@ -130,6 +144,15 @@ func replayNative(p *Program, file string) replayOutcome {
 	pkg := p.harnessPackage(rc.Harness)
 	if pkg == "" {
 		return replayOutcome{false, "harness not found: " + rc.Harness}
+	}
+	if rc.Expect == "race" {
+		// lock-discipline violation: confirmed when the race detector sees a
+		// conflicting access in the harness's concurrent stress section
+		_, out, _ := runNativeOpt(p, pkg, []replayCase{rc}, 180*time.Second, true)
+		if strings.Contains(out, "DATA RACE") {
+			return replayOutcome{true, "the Go race detector reports a data race in the native stress run"}
+		}
+		return replayOutcome{false, "no data race observed natively"}
 	}
 	res, out, err := runNative(p, pkg, []replayCase{rc}, 120*time.Second)
 	if err != nil {
